@@ -125,7 +125,9 @@ namespace nmtools::array
         template <typename output_t>
         constexpr auto operator()(output_t& output) const
         {
-            using lhs_type = meta::remove_cvref_pointer_t<decltype(nmtools::get<0>(get_array(view)))>;
+            // decltype(get<0>(...)) is a reference to the stored pointer: strip the reference first,
+            // otherwise remove_pointer_t sees a reference and lhs_type stays a pointer (contiguous_axis_v fails)
+            using lhs_type = meta::remove_cvref_pointer_t<meta::remove_cvref_t<decltype(nmtools::get<0>(get_array(view)))>>;
             constexpr auto lhs_contiguous_axis = meta::contiguous_axis_v<lhs_type>;
             if constexpr (!meta::is_fail_v<meta::remove_cvref_t<decltype(lhs_contiguous_axis)>>) {
                 if constexpr (lhs_contiguous_axis != -1) {
